@@ -137,9 +137,197 @@ theorem R_save {st : St} {sp : Spec.S} (r : R st sp) (w : Map Blob) (s : Blob) (
   · rw [z.2.2.2.2.1, z.2.2.2.1]; exact r3.sst
   · rw [z.2.2.2.2.2, z.2.2.2.1]; exact r3.clean
 
+/-! ### which names can be spilled -/
+
+/-- only worksheets, the shared strings part and the index key are ever in tempFiles -/
+def Named (st : St) : Prop :=
+  ∀ k, (load st.temp k).isSome = true → isSheet k = true ∨ isSST k = true ∨ k = sstKey
+
+theorem Named.of_sub {st st' : St} (nm : Named st)
+    (h : ∀ k, (load st'.temp k).isSome = true → (load st.temp k).isSome = true) : Named st' :=
+  fun k hk => nm k (h k hk)
+
+theorem isSome_erase {t : Map Nat} {n k : String} (h : (load (erase t n) k).isSome = true) : (load t k).isSome = true := by
+  by_cases e : k = n
+  · subst e; rw [load_erase_self] at h; cases h
+  · rwa [load_erase_ne _ e] at h
+
+theorem sstLoad2_temp_sub (st : St) (k : String) (h : (load (sstLoad2 st).temp k).isSome = true) :
+    (load st.temp k).isSome = true := by
+  unfold sstLoad2 at h
+  cases hs : st.sstTemp with
+  | none => simpa [hs] using h
+  | some id => rw [hs] at h; exact isSome_erase h
+
+theorem sstLoad_temp_sub {st : St} (i : Inv st) (k : String) (h : (load (sstLoad st).temp k).isSome = true) :
+    (load st.temp k).isSome = true := by
+  cases ht : load st.temp Facts.C12.sstPath with
+  | none =>
+    have : sstLoad st = sstLoad2 st := by unfold sstLoad; simp only [ht]
+    rw [this] at h; exact sstLoad2_temp_sub st k h
+  | some id =>
+    rw [sstLoad_eq_mid i ht] at h
+    exact isSome_erase (sstLoad2_temp_sub _ k h)
+
+theorem zipTemp_temp : ∀ (ns : List String) (st : St), (zipTemp st ns).1.temp = st.temp
+  | [], _ => rfl
+  | n :: r, st => by
+    have hf : Facts.C12.zipTempBranchViaReadBytes = true := by decide
+    unfold zipTemp
+    simp only [hf, if_true]
+    rw [zipTemp_temp r, (readBytes_frame st n).1]
+
+/-- DeleteSheet on a worksheet that is not spilled -/
+def forgetPkg (st : St) (n rels : String) : St :=
+  { st with pkg := (st.pkg.erase n).erase rels, loaded := st.loaded.filter (fun x => x != n) }
+
+/-- DeleteSheet on a spilled worksheet (repaired code): entry and file go too -/
+def forgetTmp (st : St) (n rels : String) (id : Nat) : St :=
+  { forgetPkg st n rels with temp := erase st.temp n, disk := erase st.disk id }
+
+theorem forget_none {st : St} {n : String} (rels : String) (h : load st.temp n = none) :
+    forget st n rels = forgetPkg st n rels := by
+  have h1 : Facts.C12.deleteSheetDropsTemp = true := by decide
+  unfold forget forgetPkg; simp [h1, h]
+
+theorem forget_some {st : St} {n : String} {id : Nat} (rels : String) (h : load st.temp n = some id) :
+    forget st n rels = forgetTmp st n rels id := by
+  have h1 : Facts.C12.deleteSheetDropsTemp = true := by decide
+  have h2 : Facts.C12.deleteSheetRemovesFile = true := by decide
+  unfold forget forgetTmp forgetPkg; simp [h1, h2, h]
+
+theorem forget_temp_sub (st : St) (n rels k : String) (h : (load (forget st n rels).temp k).isSome = true) :
+    (load st.temp k).isSome = true := by
+  cases ht : load st.temp n with
+  | none => rw [forget_none rels ht] at h; exact h
+  | some id => rw [forget_some rels ht] at h; exact isSome_erase h
+
+theorem step_named {st : St} (i : Inv st) (nm : Named st) (op : Op) : Named (step st op).1 := by
+  cases op with
+  | readBytes n => exact nm.of_sub (fun k h => by rw [← (readBytes_frame st n).1]; exact h)
+  | wsRead n => exact nm.of_sub (fun k h => by rw [← (readBytes_frame st n).1]; exact h)
+  | flush n ser =>
+    refine nm.of_sub (fun k h => ?_)
+    simp only [step] at h
+    split at h <;> exact h
+  | stream n => exact nm
+  | sstRead => exact nm
+  | sstItem flat =>
+    intro k hk
+    have hk' : (load (sstItem st flat).temp k).isSome = true := hk
+    unfold sstItem at hk'
+    split at hk'
+    · cases hs : st.sstTemp with
+      | some id => rw [hs] at hk'; exact nm k hk'
+      | none =>
+        rw [hs] at hk'
+        by_cases e : k = sstKey
+        · exact Or.inr (Or.inr e)
+        · have : load (store st.temp Facts.C12.sstTempKey st.next) k = load st.temp k := load_store_ne _ _ e
+          have hk2 : (load (store st.temp Facts.C12.sstTempKey st.next) k).isSome = true := hk'
+          rw [this] at hk2; exact nm k hk2
+    · exact nm k hk'
+  | sstLoad => exact nm.of_sub (fun k h => sstLoad_temp_sub i k h)
+  | sstSet => exact nm.of_sub (fun k h => sstLoad_temp_sub i k h)
+  | save w s o =>
+    refine nm.of_sub (fun k h => ?_)
+    have h' : (load (save st w s o).1.temp k).isSome = true := h
+    unfold save at h'
+    simp only [saveOrder_fold, saveCall_ws, saveCall_loader, saveCall_writer] at h'
+    rw [zipTemp_temp] at h'
+    have i2 : Inv { st with pkg := wsWrite (storeAll st.pkg o) w st.loaded, loaded := [] } := i.frame rfl rfl rfl rfl
+    have h2 : (load (sstLoad { st with pkg := wsWrite (storeAll st.pkg o) w st.loaded, loaded := [] }).temp k).isSome = true := by
+      split at h' <;> exact h'
+    exact sstLoad_temp_sub i2 k h2
+  | forget n rels => exact nm.of_sub (fun k h => forget_temp_sub st n rels k h)
+
+theorem load_erase2 (m : Map Blob) (a b k : String) :
+    load (erase (erase m a) b) k = if k = a ∨ k = b then none else load m k := by
+  by_cases hb : k = b
+  · subst hb; simp [load_erase_self]
+  · rw [load_erase_ne _ hb]
+    by_cases ha : k = a
+    · subst ha; simp [load_erase_self]
+    · rw [load_erase_ne _ ha]; simp [ha, hb]
+
+/-- sheet.go DeleteSheet (repaired) preserves the refinement: the part disappears from both tiers -/
+theorem R_forget {st : St} {sp : Spec.S} (r : R st sp) (nm : Named st) (n rels : String)
+    (a : Adm sp (.forget n rels)) :
+    R (forget st n rels) { sp with m := (sp.m.erase n).erase rels, loaded := sp.loaded.filter (fun x => x != n) } := by
+  obtain ⟨hn, hr, hnp, hrp, hrs, hrt⟩ := a
+  have h1 : Facts.C12.deleteSheetDropsTemp = true := by decide
+  have h2 : Facts.C12.deleteSheetRemovesFile = true := by decide
+  have hrels : load st.temp rels = none := by
+    cases hl : load st.temp rels with
+    | none => rfl
+    | some id =>
+      rcases nm rels (by rw [hl]; rfl) with h | h | h
+      · rw [hrs] at h; cases h
+      · rw [hrt] at h; cases h
+      · exact absurd h hr
+  have hrtrels : rtOf st.temp st.disk rels = none := by unfold rtOf; rw [hrels]
+  have inv' := forget_inv r.inv n rels
+  have key : ∀ n', n' ≠ sstKey → absAt (forget st n rels) n' = load ((sp.m.erase n).erase rels) n' := by
+    intro n' hn'
+    rw [load_erase2, absAt_eq]
+    cases ht : load st.temp n with
+    | none =>
+      rw [forget_none rels ht]
+      show absOf (load ((st.pkg.erase n).erase rels) n') (rtOf st.temp st.disk n') = _
+      rw [load_erase2]
+      by_cases c : n' = n ∨ n' = rels
+      · simp only [c, if_true]
+        rcases c with c | c
+        · subst c; unfold rtOf; rw [ht]; rfl
+        · subst c; rw [hrtrels]; rfl
+      · simp only [c, if_false]
+        rw [← absAt_eq]; exact r.abs n' hn'
+    | some id =>
+      rw [forget_some rels ht]
+      show absOf (load ((st.pkg.erase n).erase rels) n') (rtOf (erase st.temp n) (erase st.disk id) n') = _
+      rw [load_erase2, rt_remove r.inv.core ht]
+      by_cases c : n' = n ∨ n' = rels
+      · simp only [c, if_true]
+        rcases c with c | c
+        · subst c; simp [absOf]
+        · subst c
+          by_cases e2 : n' = n
+          · simp [e2, absOf]
+          · simp only [e2, if_false]; rw [hrtrels]; rfl
+      · simp only [c, if_false]
+        have c1 : ¬ n' = n := fun h => c (Or.inl h)
+        simp only [c1, if_false]
+        rw [← absAt_eq]; exact r.abs n' hn'
+  have hflags : (forget st n rels).loaded = st.loaded.filter (fun x => x != n) ∧ (forget st n rels).dirty = st.dirty ∧
+      (forget st n rels).sstLoaded = st.sstLoaded := by
+    cases ht : load st.temp n with
+    | none => rw [forget_none rels ht]; exact ⟨rfl, rfl, rfl⟩
+    | some id => rw [forget_some rels ht]; exact ⟨rfl, rfl, rfl⟩
+  refine ⟨inv', key, ?_, hflags.2.1.trans r.dirty, ?_, ?_⟩
+  · rw [hflags.1, r.loaded]
+  · rw [hflags.2.2, hflags.2.1]
+    rcases r.sst with h | ⟨h3, h4, h5⟩
+    · exact Or.inl h
+    · refine Or.inr ⟨h3, h4, ?_⟩
+      show (load ((sp.m.erase n).erase rels) Facts.C12.sstPath).isSome = true
+      rw [load_erase2]
+      have : ¬ (Facts.C12.sstPath = n ∨ Facts.C12.sstPath = rels) := by
+        rintro (h | h)
+        · exact hnp h.symm
+        · exact hrp h.symm
+      simp only [this, if_false]; exact h5
+  · intro hd
+    rw [hflags.2.1] at hd
+    have := r.clean hd
+    cases hl : load (forget st n rels).temp Facts.C12.sstPath with
+    | none => rfl
+    | some x =>
+      have hs := forget_temp_sub st n rels Facts.C12.sstPath (by rw [hl]; rfl)
+      rw [this] at hs; cases hs
+
 /-- `step_refines`: one operation on the two-tier store corresponds to the same operation on the
 plain map, and returns the same bytes -/
-theorem step_refines {st : St} {sp : Spec.S} (r : R st sp) (op : Op) (a : Adm sp op) :
+theorem step_refines {st : St} {sp : Spec.S} (r : R st sp) (nm : Named st) (op : Op) (a : Adm sp op) :
     R (step st op).1 (Spec.step sp op).1 ∧ outOk (step st op).2 (Spec.step sp op).2 := by
   cases op with
   | readBytes n =>
@@ -233,7 +421,9 @@ theorem step_refines {st : St} {sp : Spec.S} (r : R st sp) (op : Op) (a : Adm sp
   | save w s o =>
     show R (save st w s o).1 (Spec.step sp (.save w s o)).1 ∧ outOk (.zip (save st w s o).2) (.zip _)
     exact ⟨R_save r w s o a, trivial⟩
-  | forget n rels => exact absurd a (by intro h; exact h)
+  | forget n rels =>
+    show R (forget st n rels) { sp with m := (sp.m.erase n).erase rels, loaded := sp.loaded.filter (fun x => x != n) } ∧ outOk .none .none
+    exact ⟨R_forget r nm n rels a, trivial⟩
 
 /-- admissibility of a whole history, along the plain-map run -/
 def AdmAll : Spec.S → List Op → Prop
@@ -245,12 +435,12 @@ def outsOk : List Out → List Out → Prop
   | a :: r, b :: r' => outOk a b ∧ outsOk r r'
   | _, _ => False
 
-theorem run_refines : ∀ (ops : List Op) {st : St} {sp : Spec.S}, R st sp → AdmAll sp ops →
+theorem run_refines : ∀ (ops : List Op) {st : St} {sp : Spec.S}, R st sp → Named st → AdmAll sp ops →
     R (run st ops).1 (Spec.run sp ops).1 ∧ outsOk (run st ops).2 (Spec.run sp ops).2
-  | [], _, _, r, _ => ⟨r, trivial⟩
-  | op :: rest, st, sp, r, a => by
-    have s := step_refines r op a.1
-    have ih := run_refines rest s.1 a.2
+  | [], _, _, r, _, _ => ⟨r, trivial⟩
+  | op :: rest, st, sp, r, nm, a => by
+    have s := step_refines r nm op a.1
+    have ih := run_refines rest s.1 (step_named r.inv nm op) a.2
     unfold run Spec.run
     exact ⟨ih.1, s.2, ih.2⟩
 
@@ -293,5 +483,75 @@ theorem readZip_fresh (l : Limits) : ∀ (es : List Entry) (st : St) (t : Int) (
         · simpa [ZRes.st] using s
         · rename_i st2 h2
           exact readZip_fresh l rest _ _ _ (readFileInto_fresh s h2)
+
+/-! ### spillable names after open -/
+
+theorem spillOne_named {st : St} (nm : Named st) {n : String} (e : Entry) (h : isSheet n = true ∨ isSST n = true) :
+    Named (spillOne st n e).1 := by
+  intro k hk
+  have hk' : (load (store st.temp n st.next) k).isSome = true := hk
+  by_cases c : k = n
+  · subst c
+    rcases h with h | h
+    · exact Or.inl h
+    · exact Or.inr (Or.inl h)
+  · rw [load_store_ne _ _ c] at hk'; exact nm k hk'
+
+theorem sheetStep_named {st : St} (nm : Named st) (l : Limits) (n : String) (e : Entry) : Named (sheetStep l st n e).1 := by
+  unfold sheetStep
+  split
+  · rename_i hs
+    split
+    · exact spillOne_named nm e (Or.inl hs)
+    · exact nm
+  · exact nm
+
+theorem spillStep_named {st : St} (nm : Named st) (l : Limits) (n : String) (e : Entry) : Named (spillStep l st n e).1 := by
+  unfold spillStep
+  split
+  · rename_i hg
+    have hs : isSST n = true := by
+      unfold sstGuard at hg
+      simp only [Bool.and_eq_true] at hg
+      exact hg.1.1
+    simp only []
+    split
+    · exact spillOne_named nm e (Or.inr hs)
+    · exact sheetStep_named (spillOne_named nm e (Or.inr hs)) l n e
+  · exact sheetStep_named nm l n e
+
+theorem dropPart_named {st : St} (nm : Named st) (n : String) : Named (dropPart st n) := by
+  refine nm.of_sub (fun k h => ?_)
+  unfold dropPart at h
+  split at h
+  · exact isSome_erase h
+  · exact h
+
+theorem readFileInto_named {st st2 : St} (nm : Named st) {n : String} {e : Entry}
+    (hr : readFileInto st n e = .inl (some st2)) : Named st2 := by
+  unfold readFileInto at hr
+  split at hr
+  · cases hr
+  · split at hr
+    · cases hr
+    · injection hr with hr; injection hr with hr; subst hr; exact nm
+
+theorem readZip_named (l : Limits) : ∀ (es : List Entry) (st : St) (t : Int) (ws : Nat), Named st →
+    Named (readZip l st t ws es).st
+  | [], st, t, ws, h => by simpa [readZip, ZRes.st] using h
+  | e :: rest, st, t, ws, h => by
+    have hf : Facts.C12.dupReplaces = true := by decide
+    unfold readZip
+    simp only [hf, if_true]
+    split
+    · simpa [ZRes.st] using h
+    · have s := spillStep_named (dropPart_named h (normName e.name)) l (normName e.name) e
+      split
+      · exact readZip_named l rest _ _ _ s
+      · split
+        · simpa [ZRes.st] using s
+        · simpa [ZRes.st] using s
+        · rename_i st2 h2
+          exact readZip_named l rest _ _ _ (readFileInto_named s h2)
 
 end XlModel.Store
